@@ -879,6 +879,17 @@ def r_rawbounds(f):
                 Tm = (s1 - s2 - c2) if right else (s2 - s1 - c1)
                 sgm, Tn = sub.sign(Tm)
                 disjoint = sub.sign(s2 - d1 - c1)[0] == "nonneg" or sub.sign(d1 - s2 - c2)[0] == "nonneg"
+                # no cell left behind: an insertion (cells shift right) moves every cell, so consecutive sources are adjacent; a
+                # removal (cells shift left) closes every gap, so consecutive destinations are adjacent
+                Tadj = (s1 - s2 - c2) if right else (d2 - d1 - c1)
+                sga, Tna = sub.sign(-Tadj)
+                if sgm == "nonneg" and sga == "neg" and not sub.dropped and sub.sign(c1)[0] == "nonneg" and sub.sign(c2)[0] == "nonneg":
+                    bad_n += 1
+                    key = "gap|%s|%r" % ("right" if right else "left", Tna)
+                    if key not in seen_bad:
+                        seen_bad.add(key)
+                        R.fail(b.ident, key, "%s: %s: the two moves shift cells to the %s but leave a gap of %r cells between %s (negative slack %r after substituting the path facts): those cells are never moved to their new place" % (b.ident, what, "right" if right else "left", Tadj, "their sources" if right else "their destinations", Tna), b.where(span))
+                    continue
                 if sgm == "nonneg" or disjoint:
                     ok_n += 1
                 elif sgm == "neg" and not sub.dropped:
